@@ -488,3 +488,29 @@ ENTRY(h_c18_reduce){
     bool ok2 = U(t.P2M) == e[0] && U(t.M2M) == e[1] && U(t.M2L) == e[2] && U(t.L2L) == e[3] && U(t.L2P) == e[4] && U(t.P2P) == e[5] && U(t.P2PInner) == e[6];
     irsym_assert(ok2, T_REDUCE_TREE);
 }
+
+// C15 / C01 corner: a tree built from an empty particle set is a valid (if useless) input: build, query, execute, rebuild, export, destroy
+enum AidE { E_EMPTY = 230 };
+ENTRY(h_empty){
+    forkConfig(a0, a1, a3);
+    const Cfg cfg = makeCfg();
+    std::vector<std::array<Real, NData>> none;
+    Tree tree(cfg, none, a0, a1 != 0);
+    bool ok = tree.getNbParticles() == 0 && tree.getNbParticleGroups() == 0 && tree.getHeight() == HEIGHT;
+    for(long level = 0; level < HEIGHT; ++level){
+        ok = ok && tree.getNbCellGroupsAtLevel(level) == 0 && tree.getCellGroupsAtLevel(level).size() == 0;
+        ok = ok && !tree.findGroupWithCell(level, 0);
+    }
+    ok = ok && !tree.findGroupWithLeaf(0) && tree.getLeafGroups().size() == 0;
+    long cells = 0, leaves = 0;
+    tree.applyToAllCells([&](const long, auto&&, auto&&, auto&&){ ++cells; });
+    tree.applyToAllLeaves([&](auto&&, const long*, auto&&, auto&&){ ++leaves; });
+    gReg.scan(tree); gK = KFlags();
+    Algo algo(cfg);
+    algo.execute(tree);
+    tree.rebuild();
+    algo.execute(tree);
+    auto d = tree.getAllParticlesData(); auto r = tree.getAllParticlesRhs();
+    irsym_assert(ok && cells == 0 && leaves == 0, E_EMPTY);
+    irsym_observe(cells);
+}
